@@ -533,6 +533,11 @@ class HierDictDocument(DictDocument):
 
         inst = self._sanitize(cls_attrs, inst)
 
+        if inst is None and issubclass(cls, ComplexModelBase) \
+                                               and not issubclass(cls, Array):
+            # a None is a null, not an empty message
+            return None
+
         if issubclass(cls_orig, File):
             cls_orig_attrs = self.get_cls_attrs(cls_orig)
             if not isinstance(inst, cls_orig_attrs.type):
